@@ -74,7 +74,8 @@ def setup():
             sock = getattr(getattr(self, "_dispatcher", self), "socket", None)
             name = w.k.cur.name if w.k.cur is not None else None
             st = w.write_ctx.setdefault(name, [])
-            st.append(sock is not None and not getattr(sock, "closed", True))
+            st.append((sock is not None and not getattr(sock, "closed", True),
+                       getattr(self, "state", None) == S["YowNetworkLayer"].STATE_CONNECTED))
             try:
                 return orig(self, *a)
             finally:
@@ -165,12 +166,15 @@ class W(fullwire.FullWorld):
         self.client_pings = []
         self.connecting_disc_requests = 0
         self.disc_requested_attempts = set()
+        self.injected_at = {}
         self.write_ctx = {}
         _CUR["w"] = self
 
         def tag():
             st = self.write_ctx.get(self.k.cur.name if self.k.cur is not None else None)
-            return ("began-while-open",) if st and any(st) else ()
+            if st and any(x[0] for x in st):
+                return ("began-while-open",)
+            return ()
         self.net.bad_send_tag = tag
 
     def violate(self, sig, detail):
@@ -277,6 +281,7 @@ class W(fullwire.FullWorld):
         elif sp["login"] == "failure":
             c.send(Node("failure", {"reason": "401"}))
             self.injected.append((a, "failure"))
+            self.injected_at[(a, "failure")] = self.k.now
             self.faults["login_failure"] = self.faults.get("login_failure", 0) + 1
         else:
             # silence: nothing is said; the scripted end still applies (the application may give up)
@@ -305,6 +310,7 @@ class W(fullwire.FullWorld):
             ch.append(Node("text", None, None, b"Replaced by new connection"))
         c.send(Node("stream:error", None, ch))
         self.injected.append((c.attempt, "stream:error:" + kind))
+        self.injected_at[(c.attempt, "stream:error:" + kind)] = self.k.now
         self.faults["stream_error"] = self.faults.get("stream_error", 0) + 1
 
     def on_stanza(self, c, n):
@@ -505,7 +511,9 @@ class W(fullwire.FullWorld):
                     # the application itself closed this connection; what the server sent may have arrived after that
                     continue
                 c = self.conn_for(a)
-                if c is None or c.conn.s2c.inflight or c.conn.s2c.buf:
+                closed_at = c.conn.client_closed_at if c is not None else None
+                if c is None or c.conn.s2c.inflight or c.conn.s2c.buf or \
+                        (closed_at is not None and closed_at <= self.injected_at.get((a, kind), closed_at + 1)):
                     # the client closed the connection (key-upload reconnect, its own timeout, ...) before it had read
                     # everything the server sent: the stanza crossed the client's close on the wire
                     self.probe("failure_or_stream_error_crossed_client_close")
